@@ -1389,4 +1389,128 @@ theorem simpleagg_eq_hashagg_nokeys (aggs : List XAgg) (Xs : List Chunk) (hne : 
   rfl
 
 
+/-! ## nested-loop RIGHT / FULL OUTER join (executor since /repo 7d07810) -/
+
+theorem emit_nil : emit [] = [] := by simp [emit, builderRun]
+
+/-- the inner / left-outer executor model is the general one without right padding. -/
+theorem nlJoinG_eq_nlJoin (outer : Bool) (on : Pred) (nL nR : Nat) (Ls Rs : List Chunk) :
+    flat (nlJoinG outer false on nL nR Ls Rs) = flat (nlJoin outer on nR Ls Rs) := by
+  unfold nlJoinG nlJoin
+  cases outer
+  · simp [flat_append, flat_emit]
+  · simp [flat_append, flat_emit]
+
+/-- the right-outer bitmap pass finds exactly the right rows without a partner. -/
+theorem nlMatchedR_spec (on : Pred) (L R : List Row) (j : Nat) (r : Row) (hr : R[j]? = some r) :
+    nlMatchedR ((crossRL L R).map on) L.length j = matchedBy on L r := by
+  unfold nlMatchedR matchedBy crossRL
+  have key : ∀ i, i < L.length →
+      ((R.flatMap (fun r => L.map (fun l => l ++ r))).map on).getD (j * L.length + i) none =
+        ((L[i]?).map (fun l => on (l ++ r))).getD none := by
+    intro i hi
+    have e : j * L.length + i = i + L.length * j := by rw [Nat.mul_comm]; omega
+    rw [e, List.getD_eq_getElem?_getD, List.getElem?_map, cross_getElem? (fun l r => l ++ r) L R i j hi, hr]
+    cases L[i]? <;> rfl
+  have h1 : (List.range L.length).any (fun i => holds (((R.flatMap (fun r => L.map (fun l => l ++ r))).map on).getD (j * L.length + i) none)) =
+      (List.range L.length).any (fun i => (fun o : Option Row => holds ((o.map (fun l => on (l ++ r))).getD none)) L[i]?) := by
+    apply any_congr'
+    intro i hi
+    rw [key i (List.mem_range.mp hi)]
+  rw [h1, any_range_getElem? L (fun o => holds ((o.map (fun l => on (l ++ r))).getD none)) rfl]
+  rfl
+
+theorem nlUnmatchedR_spec (on : Pred) (nL : Nat) (L R : List Row) :
+    nlUnmatchedR ((crossRL L R).map on) nL L.length R = rightUnmatched on nL L R := by
+  unfold nlUnmatchedR rightUnmatched
+  have h1 : ((List.range R.length).zip R).filterMap (fun (p : Nat × Row) =>
+        if nlMatchedR ((crossRL L R).map on) L.length p.1 then none else some (nulls nL ++ p.2)) =
+      ((List.range R.length).zip R).filterMap (fun p =>
+        (fun r => if !matchedBy on L r then some (nulls nL ++ r) else none) p.2) := by
+    apply filterMap_congr_mem
+    rintro ⟨j, r⟩ hm
+    simp only
+    rw [nlMatchedR_spec on L R j r (mem_zip_range R j r hm)]
+    cases matchedBy on L r <;> rfl
+  rw [h1]
+  have h2 : ∀ (g : Row → Option Row), ((List.range R.length).zip R).filterMap (fun p => g p.2) = R.filterMap g := by
+    intro g
+    have : (fun p : Nat × Row => g p.2) = g ∘ Prod.snd := rfl
+    rw [this, ← List.filterMap_map]
+    congr 1
+    rw [List.map_snd_zip]; simp
+  refine (h2 (fun r => if !matchedBy on L r then some (nulls nL ++ r) else none)).trans ?_
+  clear h1 h2
+  induction R with
+  | nil => rfl
+  | cons a as ih =>
+    simp only [List.filterMap_cons, List.filter_cons]
+    cases matchedBy on L a
+    · simp only [Bool.not_false, if_true, List.map_cons]; rw [ih]
+    · simp only [Bool.not_true, Bool.false_eq_true, if_false]; exact ih
+
+theorem nlJoinG_flat (pl pr : Bool) (on : Pred) (nL nR : Nat) (Ls Rs : List Chunk) :
+    flat (nlJoinG pl pr on nL nR Ls Rs) =
+      (crossRL (flat Ls) (flat Rs)).filter (fun row => holds (on row)) ++
+        ((if pl then leftUnmatched on nR (flat Ls) (flat Rs) else []) ++
+         (if pr then rightUnmatched on nL (flat Ls) (flat Rs) else [])) := by
+  unfold nlJoinG
+  rw [flat_append, flat_map_filter, flat_emit, flat_emit, nlUnmatched_spec, nlUnmatchedR_spec]
+
+/-- RIGHT OUTER nested-loop join (since /repo 7d07810) = the spec's right outer join. -/
+theorem nl_eq_spec_right_outer (on : Pred) (nL nR : Nat) (Ls Rs : List Chunk) :
+    (flat (nlJoinG false true on nL nR Ls Rs)).Perm (joinRel .rightOuter on nL nR (flat Ls) (flat Rs)) := by
+  rw [nlJoinG_flat]
+  simp only [Bool.false_eq_true, if_false, if_true, List.nil_append, joinRel, rightJoin]
+  refine Perm.append_right _ ?_
+  unfold innerJoin matchesOf
+  exact cross_swap_perm (fun l r => l ++ r) (fun row => holds (on row)) (flat Ls) (flat Rs)
+
+/-- FULL OUTER nested-loop join = the spec's full outer join. -/
+theorem nl_eq_spec_full_outer (on : Pred) (nL nR : Nat) (Ls Rs : List Chunk) :
+    (flat (nlJoinG true true on nL nR Ls Rs)).Perm (joinRel .fullOuter on nL nR (flat Ls) (flat Rs)) := by
+  rw [nlJoinG_flat]
+  simp only [if_true, joinRel, fullJoin]
+  rw [← List.append_assoc]
+  refine Perm.append_right _ ?_
+  refine Perm.trans ?_ (leftJoin_perm_decomp on nR (flat Ls) (flat Rs)).symm
+  refine Perm.append_right _ ?_
+  unfold innerJoin matchesOf
+  exact cross_swap_perm (fun l r => l ++ r) (fun row => holds (on row)) (flat Ls) (flat Rs)
+
+/-- the general executor model refines the spec for all four join types (one statement). -/
+theorem nl_eq_spec (t : JoinType) (ht : t = .inner ∨ t = .leftOuter ∨ t = .rightOuter ∨ t = .fullOuter)
+    (on : Pred) (nL nR : Nat) (Ls Rs : List Chunk) :
+    (flat (nlJoinG (t == .leftOuter || t == .fullOuter) (t == .rightOuter || t == .fullOuter) on nL nR Ls Rs)).Perm
+      (joinRel t on nL nR (flat Ls) (flat Rs)) := by
+  rcases ht with h | h | h | h <;> subst h
+  · show (flat (nlJoinG false false on nL nR Ls Rs)).Perm _
+    rw [nlJoinG_eq_nlJoin]; exact nl_eq_spec_inner on nL nR Ls Rs
+  · show (flat (nlJoinG true false on nL nR Ls Rs)).Perm _
+    rw [nlJoinG_eq_nlJoin]; exact nl_eq_spec_left_outer on nL nR Ls Rs
+  · exact nl_eq_spec_right_outer on nL nR Ls Rs
+  · exact nl_eq_spec_full_outer on nL nR Ls Rs
+
+/-- hash join = nested-loop join for RIGHT and FULL OUTER too, under KeysComparable. -/
+theorem hash_eq_nl_right_outer (lk rk : List (Row → Val)) (nL nR : Nat) (Ls Rs : List Chunk)
+    (hlen : ∀ l ∈ flat Ls, l.length = nL) (hk : KeysComparable lk rk (flat Ls) (flat Rs)) :
+    (flat (hashJoin .rightOuter lk rk nL nR Ls Rs)).Perm
+      (flat (nlJoinG false true (equiOn nL lk rk (fun _ => some true)) nL nR Ls Rs)) :=
+  (hash_eq_spec_right_outer lk rk nL nR Ls Rs hlen hk).trans (nl_eq_spec_right_outer _ nL nR Ls Rs).symm
+
+theorem hash_eq_nl_full_outer (lk rk : List (Row → Val)) (nL nR : Nat) (Ls Rs : List Chunk)
+    (hlen : ∀ l ∈ flat Ls, l.length = nL) (hk : KeysComparable lk rk (flat Ls) (flat Rs)) :
+    (flat (hashJoin .fullOuter lk rk nL nR Ls Rs)).Perm
+      (flat (nlJoinG true true (equiOn nL lk rk (fun _ => some true)) nL nR Ls Rs)) :=
+  (hash_eq_spec_full_outer lk rk nL nR Ls Rs hlen hk).trans (nl_eq_spec_full_outer _ nL nR Ls Rs).symm
+
+theorem chunking_irrelevant_nljoinG (pl pr : Bool) (on : Pred) (nL nR k k' : Nat) (Ls Rs : List Chunk) :
+    nlJoinG pl pr on nL nR (rechunk k Ls) (rechunk k' Rs) = nlJoinG pl pr on nL nR Ls Rs := by
+  unfold nlJoinG; simp only [flat_rechunk]
+
+example : (flat (nlJoinG true true (fun r => sqlEq (r.getD 0 .null) (r.getD 1 .null)) 1 1
+    [[[.i32 1], [.null]], [[.i32 2]]] [[[.i32 1]], [[.null], [.i32 3]]])).Perm
+    [[.i32 1, .i32 1], [.null, .null], [.i32 2, .null], [.null, .null], [.null, .i32 3]] := by decide
+
+
 end RlModel
